@@ -83,8 +83,13 @@ func (osf *OSTypeFn) SetOSType(osType OSType) error {
 		osType = CurrentOSType()
 	}
 
-	if BuildFeatures()&FeatSetOSType != 0 && osType != CurrentOSType() {
-		return ErrSetOSType
+	var err error
+
+	if BuildFeatures()&FeatSetOSType == 0 && osType != CurrentOSType() {
+		// Without the build tag 'avfs_setostype' the OS type can't be changed :
+		// keep the current OS type (callers may ignore the error) and report the error.
+		osType = CurrentOSType()
+		err = ErrSetOSType
 	}
 
 	osf.osType = osType
@@ -96,5 +101,5 @@ func (osf *OSTypeFn) SetOSType(osType OSType) error {
 
 	osf.pathSeparator = sep
 
-	return nil
+	return err
 }
